@@ -382,6 +382,17 @@ def histories(draw, tier="quick"):
             return [scale(y) for y in x] if isinstance(x, list) else x * k
 
         spec["err2"] = scale(spec["err2"] if spec["err2"] is not None else spec["freq"])
+    if dtype in ("float32", "float64") and draw(st.integers(0, 4)) == 0:
+        # whole-number contents with fractional squared errors (e.g. pairs of weight 0.5): an integer dtype must be refused
+        def ints(x):
+            return [ints(y) for y in x] if isinstance(x, list) else float(int(x))
+
+        def halves(x):
+            return [halves(y) for y in x] if isinstance(x, list) else float(int(x)) + 0.5
+
+        spec["freq"] = ints(spec["freq"])
+        spec["err2"] = halves(spec["freq"])
+        ops.insert(draw(st.integers(0, len(ops))), ["set_dtype", draw(st.sampled_from(["int64", "int32", "int16"])), "method"])
     return {"spec": spec, "ops": ops}
 
 
